@@ -15,6 +15,29 @@ import traceback
 import warnings
 
 
+def _line_coverage(builddir, covdir, prop):
+    """development aid (tools/coverage.sh): which lines of the pure-Python build does a check execute?
+    sys.monitoring LINE events, each location disabled after its first hit (negligible overhead)"""
+    import atexit
+    mon = sys.monitoring
+    seen = set()
+    prefix = os.path.join(builddir, "asynq") + os.sep
+
+    def on_line(code, lineno):
+        if code.co_filename.startswith(prefix):
+            seen.add((code.co_filename[len(prefix):], lineno))
+        return mon.DISABLE
+    mon.use_tool_id(mon.COVERAGE_ID, "verif")
+    mon.register_callback(mon.COVERAGE_ID, mon.events.LINE, on_line)
+    mon.set_events(mon.COVERAGE_ID, mon.events.LINE)
+
+    def dump():
+        os.makedirs(covdir, exist_ok=True)
+        with open(os.path.join(covdir, "%s-%d.json" % (prop, os.getpid())), "w") as fh:
+            json.dump(sorted(seen), fh)
+    atexit.register(dump)
+
+
 def main():
     ap = argparse.ArgumentParser()
     ap.add_argument("prop")
@@ -36,6 +59,9 @@ def main():
     cap = int(os.environ.get("VERIF_WORKER_MEM_MB", "8000")) << 20
     resource.setrlimit(resource.RLIMIT_AS, (cap, cap))
     sys.path.insert(0, a.builddir)
+    covdir = os.environ.get("VERIF_COVERAGE")
+    if covdir and a.build == "py":
+        _line_coverage(os.path.realpath(a.builddir), covdir, a.prop)
     import asynq
     import asynq.scheduler
 
